@@ -1,1 +1,13 @@
 import SwcVerif.Props.C19
+#print axioms C19.getIdx_spec
+#print axioms C19.step_len
+#print axioms C19.load_at_most_once
+#print axioms C19.loads_only_on_demand
+#print axioms C19.log_monotone
+#print axioms C19.get_returns
+#print axioms C19.iter_returns
+#print axioms C19.cumsum_spec
+#print axioms C19.chain_len
+#print axioms C19.chain_index
+#print axioms C19.chain_index_neg
+#print axioms C19.nest_index
